@@ -319,7 +319,9 @@ OnRet(m, e) ==
       m1 == IF m.retAt # -1 THEN Flag(m, "returned-twice")
             ELSE IF Up(m) THEN Flag(m, "c11-return-without-cleanup")
             ELSE IF m.nOpen > 0 THEN Flag(m, "c08-return-with-write-in-flight")
-            ELSE IF m.cancelAt # -1 /\ e.res # "nil" /\ ~m.faultAtCancel
+            \* (a fault of its own that is logged after the stop request - two interfaces failing in the same instant under
+            \* Serve, a read error racing the cancellation - may win the race for the result: doneCls # {})
+            ELSE IF m.cancelAt # -1 /\ e.res # "nil" /\ ~m.faultAtCancel /\ m.doneCls = {}
                  THEN Flag(m, "c08-c10-error-reported-on-clean-stop")
             ELSE IF m.cancelAt = -1 /\ m.postDone /\ m.doneCls = {"rec"} /\ e.res # "nil"
                  THEN Flag(m, "c10-task-ended-after-recoverable-fault")
